@@ -52,14 +52,14 @@ ALTER TABLE {{.DB}}.time_series_dist {{.OnCluster}} ADD COLUMN IF NOT EXISTS `ty
 
 ALTER TABLE {{.DB}}.time_series_gin_dist {{.OnCluster}} ADD COLUMN IF NOT EXISTS `type` UInt8;
 
-ALTER TABLE time_series_dist
+ALTER TABLE time_series_dist {{.OnCluster}}
     (ADD COLUMN IF NOT EXISTS `type_v2` UInt8 ALIAS type);
 
-ALTER TABLE time_series_gin_dist
+ALTER TABLE time_series_gin_dist {{.OnCluster}}
     (ADD COLUMN IF NOT EXISTS `type_v2` UInt8 ALIAS type);
 
-ALTER TABLE samples_v3_dist
+ALTER TABLE samples_v3_dist {{.OnCluster}}
     (ADD COLUMN IF NOT EXISTS `type_v2` UInt8 ALIAS type);
 
-ALTER TABLE metrics_15s_dist
+ALTER TABLE metrics_15s_dist {{.OnCluster}}
     (ADD COLUMN IF NOT EXISTS `type_v2` UInt8 ALIAS type);
